@@ -298,7 +298,7 @@ func TestVerif_C20(t *testing.T) {
 				collectReplies("lease won", false)
 				checkAnnouncements("lease won")
 			case 2, 3, 4, 5: // submit
-				kind := rapid.SampledFrom([]string{"valid", "valid", "valid", "wrong-version", "count-mismatch", "count-mismatch", "no-services", "hostname-clash", "hostname-clash", "valid-updated"}).Draw(t, "kind")
+				kind := rapid.SampledFrom([]string{"valid", "valid", "valid", "wrong-version", "count-mismatch", "count-mismatch", "no-services", "valid-updated"}).Draw(t, "kind")
 				var mf manifest.Manifest
 				valid := true
 				switch kind {
@@ -351,11 +351,10 @@ func TestVerif_C20(t *testing.T) {
 					}
 					// sometimes the tenant recorded the hash of a manifest that does NOT fit the groups / clashes on a hostname:
 					// then the version matches but validation must still reject it
-					switch rapid.IntRange(0, 3).Draw(t, "chainVersionOf") {
-					case 0:
+					// (hostname availability is deliberately not part of the oracle: C10/C20 do not speak about
+					// hostnames, and the manager checks them only for groups it already holds a lease for)
+					if rapid.IntRange(0, 2).Draw(t, "chainVersionOf") == 0 {
 						cv, _ = sdl.ManifestVersion(c20Manifest(0, "", 3, false))
-					case 1:
-						cv, _ = sdl.ManifestVersion(c20Manifest(0, "taken.example.com", 2, false))
 					}
 					chainVersion = cv
 					note("fetch(ok)")
